@@ -291,6 +291,11 @@ def part_grid_reductions(chk):
         lay = rng.choice(['flux_surface', 'v_parallel', 'poloidal'])
         fix_axis = rng.randrange(4)
         fix_val = rng.randrange(npts[fix_axis])
+        if it % 3 != 2:
+            # the LAST point of a dimension that is distributed in the layout the request is made in (v_parallel: r and z): the index
+            # that ends the block of the last process along that direction
+            fix_axis = (0, 2)[it % 3]
+            fix_val = npts[fix_axis] - 1
 
         def body():
             comm = MPI.COMM_WORLD
